@@ -57,3 +57,23 @@ func vSegStartTicks(a *asset, rep *RepData, n int) int {
 	loopTicks := a.LoopDurMS * rep.MediaTimescale / 1000
 	return q*loopTicks + int(rep.Segments[r].StartTime)
 }
+
+// ---- request-path plumbing shared by harnesses that go through findSegMeta / createOutSeg ----
+
+var vStubRep *RepData
+var vStubSegID int
+
+// vStubFindRepAndSegmentID replaces findRepAndSegmentID (regular expressions) under symbolic execution:
+// it returns what the harness set up. Natively the real function runs on the real segment name.
+func vStubFindRepAndSegmentID(a *asset, segmentPart string) (*RepData, int, error) {
+	return vStubRep, vStubSegID, nil
+}
+
+// vSegAudioStart is the oracle for C03/C04: the first audio frame boundary at or after refTicks
+// (reference timescale), in audio ticks.
+func vAudioTimeOracle(refTicks, refTs, frameDur, audioTs int) int {
+	num := refTicks * audioTs
+	den := refTs * frameDur
+	q := (num + den - 1) / den
+	return q * frameDur
+}
